@@ -20,7 +20,8 @@ RULE = ("extract: every subset of size <= K of the 9 recognised keys + the look-
         "(K=4 quick, 5 thorough) in EVERY ordering, pairwise distinct values; the /note grid; newline look-alikes; "
         "random larger dicts with random letter case and multi-valued keys. types/merge/fsq: exhaustive small key "
         "universes x orderings, then random. ltgroup: every sequence of <= N features over tags {a,b,ab} x kinds "
-        "gene/transcript/CDS/other (every permutation of every record is itself in the scope), then random longer "
+        "gene/transcript/CDS/other (every permutation of every record is itself in the scope; a tag with only "
+        "other-kind features yields no group), then random longer "
         "records. gbiotype: every sequence of <= 3 (4) transcript feature types on one locus through the real parser. "
         "gbperm: full LocusTagGenBankParser.parse() of a record against every/random permutations. "
         "non-trivial = >= 2 recognised keys (extract), >= 1 type-like key (types), a shared key (merge), a kept and a "
